@@ -152,11 +152,13 @@ package module
 // what may be sent is constrained by call-site rules in the consensus contracts)
 //@ property C02
 // a wallet has a real (non-nil) address value
+//@ smt all (declare-fun wallet_id (Iface) BSeq)
+//@ smt all (declare-fun addr_contract (Iface) Bool)
 //@ func (w Wallet) Address() (a)
 //@   iface
 //@   trusted
 //@   pure
-//@   ensures a != nil && ivalue(a) != 0
+//@   ensures a != nil && ivalue(a) != 0 && addr_id(a) == wallet_id(w) && !addr_contract(a)
 //@ func (ph ProtocolHandler) Broadcast(pi, b, bt) (err)
 //@   iface
 //@   trusted
